@@ -335,7 +335,7 @@ func repetitionKeyIsID(c *Ctx) {
 	}
 	for _, l := range c.P.FindLifted(fn, func(in ssa.Instruction) bool {
 		bo, ok := in.(*ssa.BinOp)
-		return ok && (bo.Op == token.EQL || bo.Op == token.NEQ) && strings.HasSuffix(bo.X.Type().String(), "seq.IDSource")
+		return ok && (bo.Op == token.EQL || bo.Op == token.NEQ) && strings.HasSuffix(TypeStr(bo.X.Type()), "seq.IDSource")
 	}) {
 		bad = true
 		c.Violation("pair:removeRepetitions:key:struct", l.In.Pos(), "the repetition test of the result merge compares whole IDSource values (id, source and hint): the same document returned by two shards is kept twice")
